@@ -91,7 +91,11 @@ func newVectorAccumulator(expr parser.ItemType) (vectorAccumulator, error) {
 		}, nil
 	case "avg":
 		return func(in []float64) float64 {
-			return floats.Sum(in) / float64(len(in))
+			var mean, count float64
+			for _, v := range in {
+				mean, count = avgInc(v, mean, count)
+			}
+			return mean
 		}, nil
 	case "group":
 		return func(in []float64) float64 {
